@@ -165,7 +165,101 @@ pub fn run_zoom_dir(a: &Args) -> Result<(), String> {
     }
     Ok(())
 }
+/// C07/C13 (automatic zoom levels): for every initial zoom size the write returns (no panic), the levels listed are
+/// initial * 4^k, strictly increasing, and each summarises all the data.  args: initial=<u32> [maxzooms=<n>]
+pub fn run_zoom_auto(a: &Args) -> Result<(), String> {
+    let initial: u32 = a.get("initial").map(|s| s.parse().unwrap()).unwrap_or(160);
+    let maxz: u32 = a.get("maxzooms").map(|s| s.parse().unwrap()).unwrap_or(10);
+    if let Some(span) = a.get("span") {
+        // two-pass writing of ONE value [0, span): the automatic level choice starts from the average item size
+        let span: u32 = span.parse().unwrap();
+        let tf = tempfile::NamedTempFile::new().map_err(|e| e.to_string())?;
+        let mut out = BigWigWrite::create_file(tf.path(), HashMap::from([("chr1".to_string(), span)])).map_err(|e| e.to_string())?;
+        out.options.compress = false;
+        out.options.inmemory = true;
+        let runtime = tokio::runtime::Builder::new_current_thread().build().unwrap();
+        let v = vec![("chr1".to_string(), Value { start: 0, end: span, value: 1.0 })];
+        out.write_multipass(|| Ok(BedParserStreamingIterator::wrap_infallible_iter(v.clone().into_iter(), true)), runtime).map_err(|e| format!("write error: {}", e))?;
+        let mut r = BigWigRead::open_file(tf.path()).map_err(|e| format!("open: {}", e))?;
+        let got: Vec<_> = r.get_interval("chr1", 0, span).map_err(|e| e.to_string())?.collect::<Result<Vec<_>, _>>().map_err(|e| e.to_string())?;
+        if got.len() != 1 || got[0].start != 0 || got[0].end != span { return Err(format!("read back {:?}", got)); }
+        let levels: Vec<u32> = r.info().zoom_headers.iter().map(|z| z.reduction_level).collect();
+        for w in levels.windows(2) { if w[0] >= w[1] { return Err(format!("zoom levels not strictly increasing: {:?}", levels)); } }
+        return Ok(());
+    }
+    let vals: Vec<(u32, u32, f32)> = (0..50).map(|i| (i * 10, i * 10 + 10, 1.5)).collect();
+    let tf = tempfile::NamedTempFile::new().map_err(|e| e.to_string())?;
+    let chrom_map = HashMap::from([("chr1".to_string(), 1000u32)]);
+    let mut out = BigWigWrite::create_file(tf.path(), chrom_map).map_err(|e| e.to_string())?;
+    out.options.items_per_slot = 4;
+    out.options.block_size = 4;
+    out.options.compress = false;
+    out.options.inmemory = true;
+    out.options.channel_size = 0;
+    out.options.initial_zoom_size = initial;
+    out.options.max_zooms = maxz;
+    let runtime = tokio::runtime::Builder::new_current_thread().build().unwrap();
+    let v: Vec<(String, Value)> = vals.iter().map(|&(s, e, x)| ("chr1".to_string(), Value { start: s, end: e, value: x })).collect();
+    out.write(BedParserStreamingIterator::wrap_infallible_iter(v.into_iter(), true), runtime).map_err(|e| format!("write error: {}", e))?;
+    let mut r = BigWigRead::open_file(tf.path()).map_err(|e| format!("open: {}", e))?;
+    let levels: Vec<u32> = r.info().zoom_headers.iter().map(|z| z.reduction_level).collect();
+    for w in levels.windows(2) { if w[0] >= w[1] { return Err(format!("zoom levels are not listed with strictly increasing resolution: {:?} (initial {})", levels, initial)); } }
+    for (k, l) in levels.iter().enumerate() {
+        let want = (initial as u64) * 4u64.pow(k as u32);
+        if *l as u64 != want { return Err(format!("zoom level {} is {} but initial {} * 4^{} = {} (levels {:?})", k, l, initial, k, want, levels)); }
+    }
+    for l in levels {
+        let recs = r.get_zoom_interval("chr1", 0, 1000, l).map_err(|e| format!("zoom {} query: {:?}", l, e))?.collect::<Result<Vec<_>, _>>().map_err(|e| format!("zoom {} read: {}", l, e))?;
+        let total: u64 = recs.iter().map(|z| z.summary.bases_covered).sum();
+        if total != 500 { return Err(format!("zoom level {} covers {} bases, data has 500", l, total)); }
+    }
+    Ok(())
+}
+pub fn gen_zoom_auto(r: &mut Rng) -> String { format!("initial={}", [1u32, 10, 160, 4095, 4096, 65536, 1 << 30, 0x50000001][r.below(8) as usize]) }
 pub fn gen_zoom_dir(r: &mut Rng) -> String { format!("n={} multipass={}", r.range(1, 14), r.below(2)) }
+
+/// C15 (library merge): `merge_sections_many` of sorted disjoint streams yields a sorted, non-overlapping stream whose
+/// value at every base is the sum of the inputs there (absent where no data or the sum is zero), for coordinates up to
+/// u32::MAX.  args: streams=s,e,v;s,e,v|s,e,v;...   (streams separated by `|`)
+pub fn run_merge_many(a: &Args) -> Result<(), String> {
+    use bigtools::utils::merge::merge_sections_many;
+    let streams: Vec<Vec<(u32, u32, f32)>> = a.get("streams").ok_or("streams")?.split('|').map(parse_vals).collect();
+    let its: Vec<_> = streams.iter().map(|s| s.clone().into_iter().map(|(s, e, v)| Ok::<Value, std::io::Error>(Value { start: s, end: e, value: v }))).collect();
+    let mut out: Vec<Value> = vec![];
+    let mut it = merge_sections_many(its);
+    let mut calls = 0u64;
+    while let Some(v) = it.next() { out.push(v.map_err(|e| e.to_string())?); calls += 1; if calls > 1_000_000 { return Err("more than 10^6 output values".into()); } }
+    // a few more calls on the exhausted iterator must keep returning None (no panic)
+    for _ in 0..3 { if it.next().is_some() { return Err("value after the end of the merged stream".into()); } }
+    for w in out.windows(2) { if w[0].end > w[1].start || w[0].start >= w[0].end { return Err(format!("output not sorted/disjoint: {:?} then {:?}", w[0], w[1])); } }
+    let mut cuts: Vec<u32> = streams.iter().flatten().flat_map(|v| [v.0, v.1]).chain(out.iter().flat_map(|v| [v.start, v.end])).collect();
+    cuts.sort_unstable(); cuts.dedup();
+    for w in cuts.windows(2) {
+        let p = w[0];
+        let want: f64 = streams.iter().flatten().filter(|v| v.0 <= p && p < v.1).map(|v| v.2 as f64).sum();
+        let got: Option<f32> = out.iter().find(|v| v.start <= p && p < v.end).map(|v| v.value);
+        match got {
+            None => if want != 0.0 { return Err(format!("base {}: no merged value but the inputs sum to {}", p, want)); },
+            Some(g) => if (g as f64 - want).abs() > 1e-4 || want == 0.0 { return Err(format!("base {}: merged value {} but the inputs sum to {}", p, g, want)); },
+        }
+    }
+    Ok(())
+}
+pub fn gen_merge_many(r: &mut Rng) -> String {
+    let base: u32 = [0u32, 49_990, 99_990, 4_294_899_990, 4_294_917_000][r.below(5) as usize];
+    let mut s = String::from("streams=");
+    for k in 0..r.range(1, 4) {
+        if k > 0 { s.push('|'); }
+        let mut p = base.saturating_add(r.below(20) as u32);
+        for _ in 0..r.range(1, 4) {
+            let len = r.range(1, 30) as u32;
+            if p.checked_add(len).is_none() { break; }
+            s.push_str(&format!("{},{},{};", p, p + len, r.range(1, 4)));
+            p = p + len + r.below(10) as u32;
+        }
+    }
+    s
+}
 
 /// C15 (merge tool): merging bigWigs yields, at every base of every chromosome from position 0, the sum of
 /// the inputs, and the tool accepts the output names it documents.
